@@ -137,5 +137,82 @@ structure CleanEvent (e : Event) : Prop where
   data : Clean e.data
   nonempty : e.isEmpty = false
 
+/-! ## event streams as a FOREIGN peer may frame them
+
+`writeEvent` is one writer.  A text/event-stream from another server or through a proxy may end its
+lines in CRLF as well as LF (here: chosen line by line), carry comment lines, fields in any order and
+more than once, a payload spread over several `data` lines, `retry` lines, fields this SDK does not
+know, and any run of spaces/tabs after the colon.  (A bare CR as a line end is outside: the scanner
+splits at LF only.) -/
+
+inductive Eol where
+  | lf | crlf
+deriving DecidableEq, Repr, Inhabited
+
+def Eol.bytes : Eol → Bytes
+  | .lf => [LF]
+  | .crlf => [CR, LF]
+
+/-- what is left of the line end in front of the LF -/
+def Eol.cr : Eol → Bytes
+  | .lf => []
+  | .crlf => [CR]
+
+/-- lines, each with its own line end -/
+def renderLines : List (Bytes × Eol) → Bytes
+  | [] => []
+  | (l, e) :: t => l ++ (e.bytes ++ renderLines t)
+
+/-- One line `key ":" pad value` with its line end.  The empty key is a comment line. -/
+structure FLine where
+  key : Bytes
+  pad : Bytes := []
+  val : Bytes := []
+  eol : Eol := .lf
+deriving DecidableEq, Repr, Inhabited
+
+def FLine.text (l : FLine) : Bytes := l.key ++ COLON :: (l.pad ++ l.val)
+
+/-- An event as the peer frames it: its lines, then the blank line that dispatches it. -/
+structure FEvent where
+  lines : List FLine
+  endEol : Eol := .lf
+deriving DecidableEq, Repr, Inhabited
+
+def FEvent.render (e : FEvent) : List (Bytes × Eol) := e.lines.map (fun l => (l.text, l.eol)) ++ [([], e.endEol)]
+
+def renderStream (es : List FEvent) : Bytes := renderLines (es.flatMap FEvent.render)
+
+def sseKeys : List Bytes := [sse_eventKey, sse_idKey, sse_retryKey, sse_dataKey]
+
+/-- the value of the LAST line with key `k` (empty if there is none) -/
+def lastField (k : Bytes) (ls : List FLine) : Bytes :=
+  (((ls.filter (fun l => l.key = k)).getLast?).map (·.val)).getD []
+
+/-- the values joined with single line feeds -/
+def joinLF : List Bytes → Bytes
+  | [] => []
+  | v :: t => t.foldl (fun d x => d ++ LF :: x) v
+
+/-- What a framed event denotes (text/event-stream processing model, as far as this SDK reads it):
+the last `event`, `id` and `retry` value, and the `data` values in order joined with LF; comments and
+unknown fields contribute nothing. -/
+def FEvent.denote (e : FEvent) : Event :=
+  { name := lastField sse_eventKey e.lines, id := lastField sse_idKey e.lines,
+    retry := lastField sse_retryKey e.lines,
+    data := joinLF ((e.lines.filter (fun l => l.key = sse_dataKey)).map (·.val)) }
+
+/-- A line the property speaks about: the key has no colon, the line no LF; for the four fields the
+SDK reads, the pad is spaces/tabs and the value is trimmed (then it has no blank — so no CR — at
+either end).  The value of a comment or of an unknown field is arbitrary. -/
+structure WfFLine (l : FLine) : Prop where
+  nocolon : COLON ∉ l.key
+  nolf : LF ∉ l.text
+  known : l.key ∈ sseKeys → (∀ b ∈ l.pad, b = 32 ∨ b = 9) ∧ trim l.val = l.val
+
+/-- decidable form, for the driver -/
+def wfFLine (l : FLine) : Bool :=
+  !l.key.contains COLON && !l.text.contains LF &&
+  (!sseKeys.contains l.key || (l.pad.all (fun b => b = 32 || b = 9) && trim l.val = l.val))
 
 end Wire
